@@ -46,8 +46,14 @@ def gen_ircqueue():
         raise ExtractionError('IrcMsgQueue.enqueue: expected `command in _high` then `command in _low`, found %r' % (order,))
     # Irc.takeMsg: `msg.command.upper() in (<str>, ...)` (echo emulation)
     take = find_func(tree, 'takeMsg', cls='Irc')
+    nodes = list(ast.walk(take))
+    try:
+        # since the repair the body of one round lives in `_takeMsg` (takeMsg loops over it)
+        nodes += list(ast.walk(find_func(tree, '_takeMsg', cls='Irc')))
+    except ExtractionError:
+        pass
     echo = []
-    for n in ast.walk(take):
+    for n in nodes:
         if (isinstance(n, ast.Compare) and len(n.ops) == 1 and isinstance(n.ops[0], ast.In)
                 and isinstance(n.left, ast.Call) and isinstance(n.left.func, ast.Attribute)
                 and n.left.func.attr == 'upper' and isinstance(n.comparators[0], (ast.Tuple, ast.List))):
